@@ -455,7 +455,7 @@ func classifyReduce(c ReduceCase) (bool, []string) {
 var reduceSpec = pbt.Spec[ReduceCase]{
 	Property: "C14", Name: "reduce-table-cli",
 	Rule:   "the real binary: `rare reduce --snapshot -m <3 tab-separated fields> -g ... -a ... --rows n --cols m [--table] [--sort e] [--sort-reverse]` on 0..40 generated lines (keys incl. empty, inner blank, multi-byte, long, ESC, invalid UTF-8; group expressions incl. {0}, whose value holds the array separator, so a group key has more parts than group columns; 0..3 groups x 1..3 accumulators; limits 0..50). Oracle: exits (no hang, RSS < 2 GiB), no panic, exit status 0 (1 without input); stdout = header + min(groups, rows-1) table lines + 2 summary lines; every table line is the row of a distinct group with the accumulators of an independent model (count, sum, last), cut to --cols columns; columns start at one visible offset on all lines; without groups and --table: `name: value` lines. Row order and which rows fall under the limit are the sorter's (C13). Non-trivial: >=3 group rows displayed and checked",
-	Budget: pbt.Budget{Quick: 640, Thorough: 16000},
+	Budget: pbt.Budget{Quick: 1600, Thorough: 32000},
 	Gen:    genReduce, Check: checkReduce, Classify: classifyReduce, Watchdog: 150 * time.Second,
 }
 
@@ -570,7 +570,7 @@ func classifySnap(c SnapCase) (bool, []string) {
 var snapSpec = pbt.Spec[SnapCase]{
 	Property: "C14", Name: "snapshot-cli",
 	Rule:   "the real binary: `rare {histo,bars,bars -s,table,heatmap,spark} --snapshot` with the same sample histories written as input lines (keys with line/field separators left out) x limits x scale x format x colour/unicode/noformat flags x sorters. Oracle (crash layer): the process exits (no hang, RSS < 2 GiB), no panic or fatal error on stderr, exit status 0 (1 without input), the final frame with its summary line is on stdout. Non-trivial: ran on >=3 lines",
-	Budget: pbt.Budget{Quick: 640, Thorough: 16000},
+	Budget: pbt.Budget{Quick: 1600, Thorough: 32000},
 	Gen:    genSnap, Check: checkSnap, Classify: classifySnap, Watchdog: 150 * time.Second,
 }
 
